@@ -31,7 +31,7 @@ na = [{'property_id': p['id'], 'reason': pending.get(p['id'], 'check not built y
       for p in props if p['id'] not in claimed]
 manifest = {
     'version': 1,
-    'setup_cmd': '/venv/bin/python -c "import hypothesis, numpy, scipy, h5py, docutils" || /venv/bin/pip install --no-index --find-links /opt/veriftools/wheels hypothesis',
+    'setup_cmd': '(/venv/bin/python -c "import hypothesis, numpy, scipy, h5py, docutils" || /venv/bin/pip install --no-index --find-links /opt/veriftools/wheels hypothesis) && (test -d /verif/.deps/atheris || /venv/bin/pip install -q --no-index --find-links /opt/veriftools/wheels --target /verif/.deps atheris || echo "atheris not installed: the optional fuzz stage of C11 thorough will be skipped")',
     'hooks': {
         'guard': 'VALJEAN_VERIF',
         'enable': 'no source hook exists: checks load /repo (PYTHONPATH first) and substitute threading/queue/time/open when loading backends/queue.py and env.py privately (vlib/vsched.py); VALJEAN_VERIF=1 is exported by ./vcheck but read by nothing in /repo',
